@@ -820,8 +820,9 @@ func (vc *VC) applyContract(x ast.Node, con *Contract, full string, sig *types.S
 	} else {
 		res = Val{T: sig.Results()}
 	}
-	if con.Pure && sig.Results().Len() == 1 && len(con.Ensures) == 0 {
-		// pure function without postcondition: uninterpreted function of its arguments
+	if con.Pure && sig.Results().Len() == 1 {
+		// pure function: an uninterpreted function of its arguments (its postconditions, if any, are assumed about
+		// that application below) - two calls on the same arguments agree, and specs can name the same application
 		var as []*Term
 		allInt := true
 		for _, a := range args {
